@@ -75,7 +75,9 @@ pub fn tamper_all(ctx: &mut Ctx, base: &str, tx: &Transaction, spent: &[TxOut], 
             }
         }
         if let Asset::Explicit(_) = o.asset {
-            if o.value.is_explicit() {
+            // (a zero-value output on an unspendable script carries no amount: changing its
+            // asset is not a change the balance equation can see)
+            if o.value.is_explicit() && o.value.explicit() != Some(0) {
                 let mut t = tx.clone();
                 t.output[i].asset = Asset::Explicit(gen::asset_id(&mut ctx.rng));
                 must_reject(ctx, base, "explicit-asset-changed", &t, spent, None, detail);
@@ -283,8 +285,27 @@ fn explicit_case(r: &mut Rg, k: u64) -> ExplicitCase {
     }
     let mut expect_ok = true;
     let mut why = "balanced".to_string();
-    match k % 8 {
+    match k % 10 {
         0 | 1 => {}
+        8 => {
+            // an output that equals a spent output (same asset, same amount) appears twice
+            let a = spent[0].asset.explicit().unwrap();
+            let v = spent[0].value.explicit().unwrap();
+            let o = TxOut { asset: Asset::Explicit(a), value: Value::Explicit(v), nonce: Nonce::Null, script_pubkey: blind::address_script(r), witness: Default::default() };
+            outputs.push(o.clone());
+            if gen::chance(r, 1, 2) {
+                outputs.push(o);
+            }
+            expect_ok = false;
+            why = "extra-copies-of-an-output-equal-to-an-input".into();
+        }
+        9 => {
+            // the same spent output presented for two inputs, spent once in the outputs
+            inputs.push(TxIn { previous_output: OutPoint { txid: Txid::from_byte_array(gen::arr32(r)), vout: 1 }, ..TxIn::default() });
+            spent.push(spent[0].clone());
+            expect_ok = false;
+            why = "duplicated-input".into();
+        }
         2 => {
             // off by one on one output
             let i = r.gen_range(0..outputs.len());
